@@ -48,13 +48,19 @@ def _child(rec):
     g = torch.Generator().manual_seed(rec["seed"] % (1 << 62))
     homogeneous = len(set(names)) == 1
 
+    window, n_states = None, rec["n_states"]
+    if rec.get("window"):
+        # active orbital window (n below the HOMO incl., m above the LUMO incl.), as fractions of the occupied/virtual counts
+        probe = Molecule(Constants(), {"method": rec["method"], "scf_eps": 1e-10, "scf_converger": [1]}, torch.as_tensor(xyz_np), species)
+        nocc, nvirt = int(probe.nocc[0]), int(probe.norb[0] - probe.nocc[0])
+        window = (max(1, round(rec["window"][0] * nocc)), max(1, round(rec["window"][1] * nvirt)))
+        n_states = max(1, min(n_states, window[0] * window[1]))
+
     def settings():
-        return {
-            "method": rec["method"],
-            "scf_eps": 1e-10,
-            "scf_converger": [1],
-            "excited_states": {"n_states": rec["n_states"], "method": rec["exc"], "tolerance": rec["tol"], "make_best_guess": rec["best_guess"]},
-        }
+        exc = {"n_states": n_states, "method": rec["exc"], "tolerance": rec["tol"], "make_best_guess": rec["best_guess"]}
+        if window is not None:
+            exc["orbital_window"] = window
+        return {"method": rec["method"], "scf_eps": 1e-10, "scf_converger": [1], "excited_states": exc}
 
     sp = settings()
     mol = Molecule(Constants(), sp, torch.as_tensor(xyz_np), species)
@@ -66,6 +72,13 @@ def _child(rec):
     def dense_for(m):
         """Dense A (and B) of a homogeneous molecule object via the code's own sigma routine."""
         nocc, nvirt, Cocc, Cvirt, ea_ei = RB.get_occ_virt(m, None, m.e_mo)
+        if window is not None:
+            # the documented window, cut out here independently of the library's own index arithmetic:
+            # the n highest occupied and the m lowest virtual orbitals
+            nb, ma = window
+            Cocc, Cvirt = Cocc[:, :, nocc - nb :], Cvirt[:, :, :ma]
+            ea_ei = ea_ei[:, nocc - nb :, :ma]
+            nocc, nvirt = nb, ma
         nov = nocc * nvirt
         V = torch.eye(nov).unsqueeze(0).expand(m.nmol, nov, nov).contiguous()
         repo.set_available_memory(8 * 1024**3)
@@ -168,7 +181,7 @@ def _child(rec):
             e_i = E[i][: min(n, d["nov"])]
             if not homogeneous:
                 # the mixed-batch solver pads molecules that needed fewer (degeneracy-expanded) roots with zeros
-                e_i = e_i[: max(rec["n_states"], int((e_i != 0).sum()))]
+                e_i = e_i[: max(n_states, int((e_i != 0).sum()))]
             r["dE"] = float((e_i - om[: len(e_i)]).abs().max())
             # distance of every returned energy to the NEAREST eigenvalue of the dense matrix (are they eigenvalues at all?)
             r["eig_dist"] = float((e_i.unsqueeze(1) - om.unsqueeze(0)).abs().min(dim=1).values.max())
@@ -216,6 +229,9 @@ def gen(rng, tier):
         nbig = 3 if exc == "rpa" else 2
         rec["mem"] = int(S * nov * len(batch) * 8 * nbig / 0.4) + 1
         rec["subspace_limit"] = S
+    if len(set(batch)) == 1 and exc == "cis" and "mem" not in rec and rng.random() < 0.3:
+        # restricted active space (documented `orbital_window`; needs uniform occupied/virtual counts)
+        rec["window"] = [rng.choice([0.3, 0.5, 0.75, 1.0]), rng.choice([0.3, 0.5, 0.75, 1.0])]
     # symmetric molecules with exactly degenerate states: undistorted geometry, or a perfect first member
     u2 = rng.random()
     if u2 < 0.15:
@@ -258,6 +274,8 @@ def _execute(record, root):
         failures.append(core.fail("session-died", f"the process running the excited-state session died: {str(payload)[:400]}"))
         return core.Result.make(record, failures, stats, sig=None, nontrivial=False)
     out = payload["ok"]
+    if record.get("window"):
+        stats["probes"]["orbital_window_sessions"] = 1
     t = record["tol"]
     names = record["batch"]
     for k, e in enumerate(out):
